@@ -341,7 +341,11 @@ def run(facts, rep, tier):
                     m_ = re.search(r'\[(\d+)\]$', (b0.d.get('decltype') or b0.d.get('type') or '') if b0 is not None else '')
                     cap = int(m_.group(1)) if m_ else None
                     inst = f'{g.name}: getcwd(buffer, {c if c is not None else ln.text()[:30]})'
-                    if c is None: rep.inconclusive('PA.6', inst, n.shortloc(), 'the length handed to getcwd is not a compile-time constant')
+                    if c is None:
+                        v6, why6 = _grows_on_erange(facts, gw)
+                        if v6 is True: rep.ok('PA.6', f'{g.name}: getcwd into a buffer that is enlarged and retried while getcwd reports ERANGE', n.shortloc())
+                        elif v6 is False: rep.violation('PA.6', inst, n.shortloc(), why6, key='PA.6|retry', fn=g.name)
+                        else: rep.inconclusive('PA.6', inst, n.shortloc(), 'the length handed to getcwd is not a compile-time constant' + (f' ({why6})' if why6 else ''))
                     elif cap is not None and cap < c: rep.violation('PA.6', inst, n.shortloc(), f'getcwd may write {c} bytes into a buffer of {cap}', key='PA.6|overflow', fn=g.name)
                     elif c < PATH_MAX: rep.violation('PA.6', inst, n.shortloc(), f'the buffer holds {c} bytes but a working directory may be up to PATH_MAX = {PATH_MAX} bytes long: from a directory whose absolute path is longer, getcwd fails (ERANGE) and the directory that is saved - and restored later - is not the one the process was in', key='PA.6|short', fn=g.name)
                     else: rep.ok('PA.6', inst + f' >= PATH_MAX ({PATH_MAX})', n.shortloc())
@@ -351,6 +355,47 @@ def run(facts, rep, tier):
                     h = facts.fn(n.callee)
                     if h is not None: work.append(h)
         if n6 == 0: rep.inconclusive('PA.6', 'getWorkingDirectory()', gw.shortloc(), 'no getcwd / get_current_dir_name / std::filesystem::current_path call found: how the working directory is read is not recognised')
+
+
+ERANGE = 34            # <asm-generic/errno-base.h>: what getcwd sets when the buffer is too small
+
+
+def _grows_on_erange(facts, gw):
+    """getWorkingDirectory() with a buffer whose size is not a constant: follow the path on which the first getcwd fails with
+    errno == ERANGE (the working directory does not fit).  True: the path calls getcwd again with a buffer it enlarged; False: it gives
+    up (returns / throws) without retrying; None: not followed."""
+    class D(EvDomain):
+        loop_unroll = 2
+        max_depth = 4
+        def opaque(self, n): return EvDomain.opaque(self, n)
+        def call_result(self, ex, n, q, base, on, ov, vals, st, fr):
+            if base == 'getcwd':
+                prior = sum(1 for e in st.events if e[0] == 'ev' and e[2].kind == 'call' and e[2].name.split('::')[-1] == 'getcwd')
+                return Lin.const(0) if prior <= 1 else Sym('cwd-buffer')
+            if base == '__errno_location': return Sym('&errno')
+            return super().call_result(ex, n, q, base, on, ov, vals, st, fr)
+        def deref(self, ex, n, v, st, fr):
+            if isinstance(v, Sym) and v.name == '&errno': return Lin.const(ERANGE)
+            return None
+    try:
+        res = run_paths(facts, gw, D())
+    except Inconclusive as e:
+        return None, str(e)
+    verdicts = []
+    for Pp, E in res:
+        calls = [i for i, e in enumerate(E) if e.kind == 'call' and e.name.split('::')[-1] == 'getcwd']
+        if not calls: return None, 'a path without getcwd'
+        if any(h == 'fork' and c_ is not None and 'errno' in (c_.text() or '') for c_, v_, h in Pp.decisions): return None, 'a test of errno was not decided'
+        if len(calls) >= 2:
+            grew = [e for e in E[calls[0]:calls[1]] if e.kind == 'call' and e.name.split('::')[-1] in ('resize', 'reserve', 'realloc', 'assign', 'append', 'push_back')] or [e for e in E[calls[0]:calls[1]] if e.kind in ('new', 'alloc')]
+            verdicts.append(True if grew else None)
+        else:
+            site = next((e.site for e in reversed(E) if e.kind in ('return', 'throw') and e.site), gw.shortloc())
+            verdicts.append((False, f'when the working directory does not fit the buffer getcwd fails with errno == ERANGE ({ERANGE}); on that path the function gives up at {site} instead of enlarging the buffer and trying again '
+                                    f'(path: {"; ".join(((c_.text() or "")[:40] + " = " + str(v_)) for c_, v_, h in Pp.decisions if c_ is not None)[:160]}): the directory that is saved - and restored later - is not the one the process was in'))
+    if any(isinstance(v, tuple) for v in verdicts): return next(v for v in verdicts if isinstance(v, tuple))
+    if verdicts and all(v is True for v in verdicts): return True, ''
+    return None, 'the retry was not followed'
 
 
 PATH_MAX = 4096        # <linux/limits.h> of the build platform (what FILENAME_MAX expands to in glibc)
